@@ -524,70 +524,102 @@ def run_prototype(case):
         ns['init_methods'] = entries
     base = type('Proto', (desper.Prototype,), ns)
     expected_src = dict(src)
-    if sub_kind == 'none':
+    order = 'sub_only'
+    if ':' in sub_kind:
+        sub_kind, order = sub_kind.split(':')
+    other = 'make_' if prefix == 'init_' else 'init_'
+    if sub_kind == 'none' or not uniq:
         cls = base
-    elif sub_kind == 'override_method' and uniq:
+        sub_kind = 'none'
+    elif sub_kind == 'override_method':
         t = uniq[0]
         cls = type('SubProto', (base,),
                    {prefix + t.__name__: (lambda self, tt: tt('sub_method'))})
         hits['subclass_override'] = 1
-    elif sub_kind == 'override_entries' and uniq:
+        if not expected_src[t][1]:
+            hits['subclass_adds_method'] = 1
+    elif sub_kind == 'override_entries':
         t = uniq[-1]
         cls = type('SubProto', (base,),
                    {'init_methods': {t: (lambda tt: tt('sub_entry'))}})
         hits['subclass_override'] = 1
+    elif sub_kind == 'change_prefix':
+        # the subclass only switches to the other prefix: the methods the
+        # base class ignored are now the prefixed ones
+        cls = type('SubProto', (base,), {'init_prefix': other})
+        hits['subclass_changes_prefix'] = 1
     else:
         cls = base
-    proto = cls()
+        sub_kind = 'none'
+
+    def want_for(kind, t):
+        if kind == 'override_entries':
+            # the subclass mapping replaces the base mapping wholesale
+            entry = 'sub_entry' if t is uniq[-1] else None
+        else:
+            entry = 'entry' if expected_src[t][0] else None
+        shared = [u for u in uniq if u.__name__ == t.__name__
+                  and expected_src[u][1]]
+        if kind == 'change_prefix':
+            method = 'wrong_prefix'
+        elif (kind == 'override_method'
+                and t.__name__ == uniq[0].__name__):
+            method = 'sub_method'
+        elif shared:
+            method = 'method'
+            if not expected_src[t][1]:
+                hits['same_name_shares_method'] = 1
+        else:
+            method = None
+        if entry:
+            if method:
+                hits['entry_wins'] = 1
+            return entry
+        if method:
+            hits['prefixed_method'] = 1
+            return method
+        hits['default_constructor'] = 1
+        return 'default'
+
+    # which prototypes are iterated, in which order: a class must not be
+    # affected by another class of its family having been iterated before
+    plan = [(cls, sub_kind)]
+    if cls is not base:
+        if order == 'base_first':
+            plan = [(base, 'none'), (cls, sub_kind), (base, 'none')]
+            hits['base_iterated_before_subclass'] = 1
+        elif order == 'sub_first':
+            plan = [(cls, sub_kind), (base, 'none'), (cls, sub_kind)]
+            hits['subclass_iterated_before_base'] = 1
     seen_ids = set()
     calls = 0
-    for round_ in range(2):
-        got = list(proto)
-        calls += 1
-        if len(got) != len(types):
-            raise Violation('one_component_per_listed_type',
-                            f'{case}: {len(got)} components for '
-                            f'{len(types)} listed types')
-        for t, obj in zip(types, got):
-            if type(obj) is not t:
-                raise Violation('components_in_listed_order',
-                                f'{case}: expected a {t.__name__} '
-                                f'({id(t)}), got {type(obj).__name__}')
-            if id(obj) in seen_ids:
-                raise Violation('new_component_each_time', f'{case}')
-            seen_ids.add(id(obj))
-            if sub_kind == 'override_entries' and uniq:
-                # the subclass mapping replaces the base mapping wholesale
-                entry = 'sub_entry' if t is uniq[-1] else None
-            else:
-                entry = 'entry' if expected_src[t][0] else None
-            shared = [u for u in uniq if u.__name__ == t.__name__
-                      and expected_src[u][1]]
-            if (sub_kind == 'override_method' and uniq
-                    and t.__name__ == uniq[0].__name__):
-                method = 'sub_method'
-            elif shared:
-                method = 'method'
-                if not expected_src[t][1]:
-                    hits['same_name_shares_method'] = 1
-            else:
-                method = None
-            if entry:
-                want = entry
-                if method:
-                    hits['entry_wins'] = 1
-            elif method:
-                want = method
-                hits['prefixed_method'] = 1
-            else:
-                want = 'default'
-                hits['default_constructor'] = 1
-            if obj.built_by != want:
-                raise Violation('construction_source_priority',
-                                f'{case}: {t.__name__} built by '
-                                f'{obj.built_by!r}, expected {want!r}',
-                                expected=want, got=obj.built_by)
-        keepalive = got
+    keepalive = []
+    for pcls, kind in plan:
+        proto = pcls()
+        for round_ in range(2):
+            got = list(proto)
+            calls += 1
+            if len(got) != len(types):
+                raise Violation('one_component_per_listed_type',
+                                f'{case}: {len(got)} components for '
+                                f'{len(types)} listed types')
+            for t, obj in zip(types, got):
+                if type(obj) is not t:
+                    raise Violation('components_in_listed_order',
+                                    f'{case}: expected a {t.__name__} '
+                                    f'({id(t)}), got {type(obj).__name__}')
+                if id(obj) in seen_ids:
+                    raise Violation('new_component_each_time', f'{case}')
+                seen_ids.add(id(obj))
+                want = want_for(kind, t)
+                if obj.built_by != want:
+                    raise Violation(
+                        'construction_source_priority',
+                        f'{case}: {pcls.__name__} (plan '
+                        f'{[c.__name__ for c, _ in plan]}): {t.__name__} '
+                        f'built by {obj.built_by!r}, expected {want!r}',
+                        expected=want, got=obj.built_by)
+            keepalive.append(got)
     del keepalive
     return {'calls': calls, 'hits': hits, 'key': repr(case)}
 
@@ -665,8 +697,12 @@ def prototype_cases():
         for src in itertools.product(SOURCES, repeat=n):
             for prefix_kind in ('default', 'custom'):
                 for sub_kind in ('none', 'override_method',
-                                 'override_entries'):
+                                 'override_entries', 'change_prefix'):
                     out.append((tl_name, src, prefix_kind, sub_kind))
+                    if sub_kind != 'none' and n:
+                        for order in ('base_first', 'sub_first'):
+                            out.append((tl_name, src, prefix_kind,
+                                        f'{sub_kind}:{order}'))
     return out
 
 
@@ -727,7 +763,11 @@ def run(tier, rep):
                      attach_while_disabled=1, postponed_on_add_released=1,
                      entry_wins=1, prefixed_method=1, default_constructor=1,
                      same_name_shares_method=1, custom_prefix=1,
-                     subclass_override=1, listeners_0=1, listeners_3=1)
+                     subclass_override=1, subclass_adds_method=1,
+                     subclass_changes_prefix=1,
+                     base_iterated_before_subclass=1,
+                     subclass_iterated_before_base=1,
+                     listeners_0=1, listeners_3=1)
     for name, (driver, kw) in drivers(tier).items():
         kernel.explore(driver, rep, part=name, params=driver.params(), **kw)
     rep.require_hits(controller_handed_to_another_entity=1,
